@@ -402,6 +402,25 @@ pub fn replay(case: &Value, verbose: bool) -> Vec<String> {
             }
             cl
         }
+        "free" => {
+            let sets = job_sets(true);
+            let jobs = &sets[case["set"].as_u64().unwrap() as usize];
+            let refs: Vec<String> = jobs.iter().map(outcome_of).collect();
+            let shared = Arc::new(jobs.clone());
+            for _ in 0..case["iterations"].as_u64().unwrap_or(300) * 4 {
+                let hs: Vec<_> = (0..jobs.len())
+                    .map(|t| {
+                        let sh = shared.clone();
+                        std::thread::spawn(move || outcome_of(&sh[t]))
+                    })
+                    .collect();
+                let outs: Vec<String> = hs.into_iter().map(|h| h.join().unwrap_or_else(|_| "thread-panicked".into())).collect();
+                if outs != refs {
+                    return vec!["C12 free-running-concurrent-call-result-differs-from-sequential-reference".into()];
+                }
+            }
+            vec![]
+        }
         k => panic!("unknown C12 case {k}"),
     }
 }
@@ -475,6 +494,41 @@ pub fn run(tier: &str) -> i32 {
         explore_jobs(&st, jobs, bound, i, &mut seen);
     }
     st.add("distinct_outcome_vectors_over_all_schedules", seen.len() as u64);
+    // ---- supplement: the same job sets free-running on real parallel threads (no scheduler, no hand-offs
+    // that could order accesses); sampling, not part of the exhaustive claim — a data race that only shows
+    // between two hook points would need new `unsafe`/statics, which the audit below surfaces
+    {
+        let iters = if thorough { 2000 } else { 300 };
+        let mut devs = 0u64;
+        for (i, jobs) in sets.iter().enumerate() {
+            let refs: Vec<String> = jobs.iter().map(outcome_of).collect();
+            let shared = Arc::new(jobs.clone());
+            for it in 0..iters {
+                let barrier = Arc::new(std::sync::Barrier::new(jobs.len()));
+                let hs: Vec<_> = (0..jobs.len())
+                    .map(|t| {
+                        let (sh, b) = (shared.clone(), barrier.clone());
+                        std::thread::spawn(move || {
+                            b.wait();
+                            outcome_of(&sh[t])
+                        })
+                    })
+                    .collect();
+                let outs: Vec<String> = hs.into_iter().map(|h| h.join().unwrap_or_else(|_| "thread-panicked".into())).collect();
+                if outs != refs {
+                    devs += 1;
+                    if devs <= 3 {
+                        st.violation(
+                            "C12 free-running-concurrent-call-result-differs-from-sequential-reference",
+                            format!("free:{i}:{it}"),
+                            json!({"prop": "C12", "kind": "free", "set": i, "iterations": iters}),
+                        );
+                    }
+                }
+            }
+        }
+        st.add("supplement_free_running_parallel_executions (sampling)", (iters * sets.len()) as u64);
+    }
     st.add("job_sets", sets.len() as u64);
     // ---- (a) is part of every call above (operands compared bit for bit after each call)
     // ---- (d) audit
